@@ -33,6 +33,9 @@ func (ks *KerxSubtable) parseEnd(src []byte, _ int) (int, error) {
 	if L := len(src); L < int(ks.length) {
 		return 0, fmt.Errorf("EOF: expected length: %d, got %d", ks.length, L)
 	}
+	if ks.length < 12 { // the length includes the header: the next subtable must start after it
+		return 0, fmt.Errorf("invalid kerx subtable length: %d", ks.length)
+	}
 	return int(ks.length), nil
 }
 
